@@ -212,4 +212,7 @@ def main():
 
 
 if __name__ == "__main__":
+    # the calling code lives in a module whose name merely BEGINS like the library's ("stackscope_..."): it is user
+    # code all the same, and none of its frames may be taken for the library's own
+    __name__ = "stackscope_verif_slice_driver"
     main()
